@@ -122,4 +122,66 @@ def goShiftBound : Int := 1023 - 1 + 52
 /-- Go's rule for a constant shift count -/
 def goShiftCountOk (cnt : Int) : Bool := decide (0 ≤ cnt ∧ cnt ≤ goShiftBound)
 
+/-! ## untyped numeric constants of mixed kind (integer, rune, floating-point)
+
+Go's constant arithmetic on untyped floating-point constants is exact too: values are rationals
+(`Rat`).  An untyped constant has a *kind* — integer < rune < floating-point — and the kind of a
+binary operation on untyped operands is the larger one.  `/` is the truncated integer division
+when both operands are of integer kind and the exact rational division otherwise; `%` and the
+bitwise operators are defined on integer kinds only; a floating-point constant can be converted to
+an integer type, or shifted, only if its value is an integer ("truncated to integer" otherwise). -/
+
+inductive UKind where
+  | int | rune | float
+  deriving DecidableEq, Repr
+
+def UKind.rank : UKind → Nat
+  | .int => 0 | .rune => 1 | .float => 2
+
+def UKind.max (a b : UKind) : UKind := if a.rank < b.rank then b else a
+
+def UKind.isInteger : UKind → Bool
+  | .float => false
+  | _ => true
+
+/-- type of a numeric constant -/
+inductive Ty where
+  | untyped (u : UKind)
+  | typed (k : Kind)
+  deriving DecidableEq, Repr
+
+def Ty.isInteger : Ty → Bool
+  | .untyped u => u.isInteger
+  | .typed _ => true
+
+def isIntegral (q : Rat) : Bool := q.den == 1
+
+inductive ArithErr where
+  | divZero
+  | notDefined     -- operator not defined on floating-point constants
+  deriving DecidableEq, Repr
+
+/-- exact binary arithmetic on numeric constants; `intKind` = both operands are of integer kind
+(their values are then integers) -/
+def arithQ (intKind : Bool) (op : Arith) (a b : Rat) : Except ArithErr Rat :=
+  if intKind then
+    match arith op a.num b.num with
+    | none => .error .divZero
+    | some r => .ok (r : Int)
+  else
+    match op with
+    | .add => .ok (a + b)
+    | .sub => .ok (a - b)
+    | .mul => .ok (a * b)
+    | .quo => if b = 0 then .error .divZero else .ok (a / b)
+    | _ => .error .notDefined
+
+def cmpQ : Cmp → Rat → Rat → Bool
+  | .eq, a, b => decide (a = b)
+  | .ne, a, b => decide (a ≠ b)
+  | .lt, a, b => decide (a < b)
+  | .le, a, b => decide (a ≤ b)
+  | .gt, a, b => decide (b < a)
+  | .ge, a, b => decide (b ≤ a)
+
 end ScriggoV.Spec.GoConst
